@@ -9,14 +9,15 @@ from nbsym import engine as E
 ID = "C12"
 TITLE = "REF/ALT haplotype strings -> per-SNV integer alleles -> strings is the identity; recovered SNV positions are the polymorphic subset of SNVPOS; first-appearance allele numbering with REF = 0; haplotypes rendered by assemble are re-read by call/call-exact with the same REF/ALT"
 TECHNIQUE = "solver-driven exhaustive enumeration of bounded records through the repo's shadow-loaded source (string code realises symbolic values); each realised record checked against an independent oracle and replayed on the real module"
-ENCODED = ["mchap.io.loci.LocusPrior.from_variant_record", "mchap.io.loci.LocusPrior.encode_haplotypes", "mchap.io.loci.Locus._template_sequence",
+ENCODED = ["mchap.application.call.program.call_sample_genotypes", "mchap.application.call_exact.program.call_sample_genotypes", "mchap.application.assemble.program.call_sample_genotypes",
+           "mchap.io.loci.LocusPrior.from_variant_record", "mchap.io.loci.LocusPrior.encode_haplotypes", "mchap.io.loci.Locus._template_sequence",
            "mchap.io.loci.Locus.format_haplotypes", "mchap.encoding.character.transcode.as_allelic", "mchap.encoding.integer.transcode.as_characters"]
 STUBS = ["pysam.VariantRecord -> duck-typed record (ref, alts, info, chrom/start/stop/id)"]
 ASSUMES = ["sequence handling is numpy unicode / str.format code (C boundary): the bases of REF and ALT, the number of ALT alleles and the assemble-side SNV set are integer variables that the solver enumerates exhaustively inside the bound (realised mode)",
            "ALT haplotypes are pairwise distinct and differ from REF (as in any VCF record)"]
-BOUNDS = {"quick": "haplotypes of length 3 over {A,C,G}, REF + up to 2 ALT, every base combination; assemble side: every subset of positions as SNVPOS with up to 3 alleles per SNV and every called-haplotype set of size <= 3",
+BOUNDS = {"quick": "pipeline: the assemble records of the C13 scenarios (6; thorough all) x 3 thresholds x dominant genotypes, re-read by call (trace chosen by the solver) and call-exact (real exact code), with and without AFP as prior; haplotypes of length 3 over {A,C,G}, REF + up to 2 ALT, every base combination; assemble side: every subset of positions as SNVPOS with up to 3 alleles per SNV and every called-haplotype set of size <= 3",
           "thorough": "length 4, up to 3 ALT"}
-OUTSIDE = "piping real assemble stdout through call (BAM I/O, pysam parsing); completeness of GT is covered with C16 (masking) and C13"
+OUTSIDE = "piping real assemble stdout through call with real BAM files and pysam's VCF parser (the pipeline group hands call / call-exact a duck-typed record built from the text line assemble formatted)"
 TASKS_PER_CHILD = 4
 LEVEL_TEXT = ("Solver-driven exhaustive enumeration of a bounded record space (string code realises symbolic values) against an independent oracle; weaker than the symbolic checks, stated in evidence.")
 ALPHA = "ACG"
